@@ -4,7 +4,7 @@
 //
 // alternatives:  i = int   f = float (payload p means p/2.0f, 1000 = NaN)   t = Trk (non-trivial copy/move/dtor,
 // moved-from value -1)   m = Mo (move-only, moved-from value -1).  Extra argument types for the converting forms:
-// s = short, l = long.
+// s = short, l = long; the mark-carrying kinds c d a b q x (Sm<Bits>, below) are alternatives AND argument types.
 #include "proto.hpp"
 
 #include <etl/expected.hpp>
@@ -37,6 +37,12 @@ using proto::Line;
 #endif
 #ifndef C07_HAS_OPTREF_CONV
     #define C07_HAS_OPTREF_CONV 0
+#endif
+#ifndef C07_HAS_EXPECTED_EQ
+    #define C07_HAS_EXPECTED_EQ 0
+#endif
+#ifndef C07_HAS_VALUE
+    #define C07_HAS_VALUE 0
 #endif
 
 // ---------------------------------------------------------------- element types
@@ -273,7 +279,36 @@ bool with_arg_type(std::string const& a, F&& f)
     if (a == "f") { f(std::type_identity<float> {}); return true; }
     if (a == "t") { f(std::type_identity<Trk> {}); return true; }
     if (a == "m") { f(std::type_identity<Mo> {}); return true; }
+    // the mark-carrying kinds as ARGUMENT types: which special member of T_j a converting form runs is visible in the result
+    if (a == "c") { f(std::type_identity<KC> {}); return true; }
+    if (a == "d") { f(std::type_identity<KD> {}); return true; }
+    if (a == "a") { f(std::type_identity<KA> {}); return true; }
+    if (a == "b") { f(std::type_identity<KB> {}); return true; }
+    if (a == "q") { f(std::type_identity<KQ> {}); return true; }
+    if (a == "x") { f(std::type_identity<KX> {}); return true; }
     return false;
+}
+
+// `dst = a` / `dst = std::move(a)` and `D(a)` / `D(std::move(a))` for a named object a of type A; reports `a` afterwards.
+// make(D&&) stores a newly constructed object.
+template <typename D, typename A, typename Store>
+std::string conv_from(bool assign, bool lvalue, long long n, D* dst, Store&& store)
+{
+    A arg = mk<A>(n);
+    if (lvalue) {
+        if (assign) {
+            if constexpr (std::is_assignable_v<D&, A&>) { *dst = arg; } else { return "nc"; }
+        } else {
+            if constexpr (std::is_constructible_v<D, A&>) { store(std::make_unique<D>(arg)); } else { return "nc"; }
+        }
+    } else {
+        if (assign) {
+            if constexpr (std::is_assignable_v<D&, A>) { *dst = std::move(arg); } else { return "nc"; }
+        } else {
+            if constexpr (std::is_constructible_v<D, A>) { store(std::make_unique<D>(std::move(arg))); } else { return "nc"; }
+        }
+    }
+    return "ok a=" + show(arg);
 }
 
 struct Cfg {
@@ -413,28 +448,12 @@ struct VarCfg final : Cfg {
             auto k      = slot("s");
             auto n      = l.i("v");
             bool assign = l.str("how") == "assign";
+            bool lvalue = l.has("cat") && l.str("cat") == "l";
             std::string ri = "nc", rs = "nc";
             bool ok = with_arg_type(l.str("a"), [&](auto tag) {
                 using A = typename decltype(tag)::type;
-                if (assign) {
-                    if constexpr (std::is_assignable_v<EV&, A>) {
-                        *e[k] = mk<A>(n);
-                        ri    = "ok";
-                    }
-                    if constexpr (std::is_assignable_v<SV&, A>) {
-                        *s[k] = mk<A>(n);
-                        rs    = "ok";
-                    }
-                } else {
-                    if constexpr (std::is_constructible_v<EV, A>) {
-                        e[k] = std::make_unique<EV>(mk<A>(n));
-                        ri   = "ok";
-                    }
-                    if constexpr (std::is_constructible_v<SV, A>) {
-                        s[k] = std::make_unique<SV>(mk<A>(n));
-                        rs   = "ok";
-                    }
-                }
+                ri = conv_from<EV, A>(assign, lvalue, n, e[k].get(), [&](std::unique_ptr<EV> p) { e[k] = std::move(p); });
+                rs = conv_from<SV, A>(assign, lvalue, n, s[k].get(), [&](std::unique_ptr<SV> p) { s[k] = std::move(p); });
             });
             return ok ? fin(ri, rs) : BAD;
         }
@@ -527,6 +546,38 @@ struct VarCfg final : Cfg {
             }
             return fin("calls=" + std::to_string(ce) + " ret=" + std::to_string(re) + " " + ri,
                        "calls=" + std::to_string(cs) + " ret=" + std::to_string(rr) + " " + rs);
+        }
+        if (op == "visitp") { // non-variant arguments in visit (variant_size<V>() == 1 for them): pos=0 (n, v), 1 (v, n), 2 (n, n+1)
+            auto k   = slot("s");
+            auto pos = l.i("pos");
+            int n    = static_cast<int>(l.i("v"));
+            bool idx = l.i("idx", 0) != 0;
+            std::string ri, rs;
+            int ce = 0, cs = 0;
+            auto ve = [&](auto const&... xs) { ++ce; ((ri += show(xs) + ","), ...); return ce; };
+            auto vi = [&](auto... p) { ++ce; ((ri += std::to_string(p.index.value) + "=" + show(p.value()) + ","), ...); return ce; };
+            EV const& a = *e[k];
+            SV const& x = *s[k];
+            int re = 0;
+            // reference: std::visit takes variants only; a plain argument is handed to the visitor unchanged (index 0)
+            auto sx = [&](std::string const& pre) { return pre + st1(x).substr(st1(x).find(':') + 1) + ","; };
+            std::string const ix = idx ? std::to_string(x.index()) + "=" : std::string();
+            std::string const i0 = idx ? std::string("0=") : std::string();
+            if (pos == 0) {
+                re = idx ? etl::visit_with_index(vi, n, a) : etl::visit(ve, n, a);
+                rs = i0 + show(n) + "," + sx(ix);
+            } else if (pos == 1) {
+                re = idx ? etl::visit_with_index(vi, a, n) : etl::visit(ve, a, n);
+                rs = sx(ix) + i0 + show(n) + ",";
+            } else if (pos == 2) {
+                int m = n + 1;
+                re = idx ? etl::visit_with_index(vi, n, m) : etl::visit(ve, n, m);
+                rs = i0 + show(n) + "," + i0 + show(m) + ",";
+            } else {
+                return BAD;
+            }
+            ++cs;
+            return fin("calls=" + std::to_string(ce) + " ret=" + std::to_string(re) + " " + ri, "calls=" + std::to_string(cs) + " ret=1 " + rs);
         }
         if (op == "vcat") { // value category delivered by visit / unchecked_get / operator[] (observed, compared with std)
             if constexpr (cat_enabled) {
@@ -647,16 +698,12 @@ struct OptCfg final : Cfg {
             auto k      = slot("s");
             auto n      = l.i("v");
             bool assign = l.str("how") == "assign";
+            bool lvalue = l.has("cat") && l.str("cat") == "l";
             std::string ri = "nc", rs = "nc";
             bool ok = with_arg_type(l.str("a"), [&](auto tag) {
                 using A = typename decltype(tag)::type;
-                if (assign) {
-                    if constexpr (std::is_assignable_v<EO&, A>) { *e[k] = mk<A>(n); ri = "ok"; }
-                    if constexpr (std::is_assignable_v<SO&, A>) { *s[k] = mk<A>(n); rs = "ok"; }
-                } else {
-                    if constexpr (std::is_constructible_v<EO, A>) { e[k] = std::make_unique<EO>(mk<A>(n)); ri = "ok"; }
-                    if constexpr (std::is_constructible_v<SO, A>) { s[k] = std::make_unique<SO>(mk<A>(n)); rs = "ok"; }
-                }
+                ri = conv_from<EO, A>(assign, lvalue, n, e[k].get(), [&](std::unique_ptr<EO> p) { e[k] = std::move(p); });
+                rs = conv_from<SO, A>(assign, lvalue, n, s[k].get(), [&](std::unique_ptr<SO> p) { s[k] = std::move(p); });
             });
             return ok ? fin(ri, rs) : BAD;
         }
@@ -762,6 +809,21 @@ struct OptCfg final : Cfg {
             auto k = slot("s");
             return fin(proto::fmt_bool(e[k]->has_value()) + proto::fmt_bool(static_cast<bool>(*e[k])) + proto::fmt_bool(e[k]->operator->() != nullptr),
                        proto::fmt_bool(s[k]->has_value()) + proto::fmt_bool(static_cast<bool>(*s[k])) + proto::fmt_bool(s[k]->has_value()));
+        }
+        if (op == "value") { // checked access: std::optional::value() returns the value or throws bad_optional_access
+            auto k = slot("s");
+            std::string rs;
+            try {
+                rs = show(s[k]->value());
+            } catch (std::bad_optional_access const&) {
+                rs = "throw";
+            }
+#if C07_HAS_VALUE
+            std::string ri = e[k]->has_value() ? show(e[k]->value()) : std::string("throw");
+#else
+            std::string ri = "nc";
+#endif
+            return fin(ri, rs);
         }
         if (op == "value_or") {
             auto k  = slot("s");
@@ -1079,6 +1141,40 @@ struct ExpCfg final : Cfg {
             return fin(proto::fmt_bool(e[k]->has_value()) + proto::fmt_bool(static_cast<bool>(*e[k])) + proto::fmt_bool(e[k]->operator->() != nullptr),
                        proto::fmt_bool(s[k]->has_value()) + proto::fmt_bool(static_cast<bool>(*s[k])) + proto::fmt_bool(s[k]->has_value()));
         }
+        if (op == "value") { // checked access: std::expected::value() returns the value or throws bad_expected_access<E>
+            auto k = slot("s");
+            std::string rs;
+            if constexpr (std::is_copy_constructible_v<E>) {
+                try {
+                    rs = show(s[k]->value());
+                } catch (std::bad_expected_access<E> const&) {
+                    rs = "throw";
+                }
+            } else {
+                rs = s[k]->has_value() ? show(**s[k]) : std::string("throw"); // value() const& needs a copyable E
+            }
+#if C07_HAS_VALUE
+            std::string ri = e[k]->has_value() ? show(e[k]->value()) : std::string("throw");
+#else
+            std::string ri = "nc";
+#endif
+            return fin(ri, rs);
+        }
+        if (op == "rel") { // [expected.object.eq]: == and != (rewritten) between two expected objects
+            auto k = slot("s");
+            auto j = slot("with");
+            std::string rs;
+            rs += (*s[k] == *s[j]) ? '1' : '0';
+            rs += (*s[k] != *s[j]) ? '1' : '0';
+#if C07_HAS_EXPECTED_EQ
+            std::string ri;
+            ri += (*e[k] == *e[j]) ? '1' : '0';
+            ri += (*e[k] != *e[j]) ? '1' : '0';
+#else
+            std::string ri = "nc";
+#endif
+            return fin(ri, rs);
+        }
         if (op == "value_or") {
             auto k  = slot("s");
             bool mv = l.i("mv", 0) != 0;
@@ -1218,6 +1314,7 @@ Made make_part4(std::string const& kind, std::string const& alts, std::size_t n)
 {
     if (kind == "var" && alts == "qx") { return std::make_unique<VarCfg<KQ, KX>>(n); }
     if (kind == "var" && alts == "cb") { return std::make_unique<VarCfg<KC, KB>>(n); }
+    if (kind == "var" && alts == "ii") { return std::make_unique<VarCfg<int, int>>(n); } // a repeated alternative type
     if (kind == "opt" && alts == "i") { return std::make_unique<OptCfg<int, long>>(n); }
     if (kind == "opt" && alts == "f") { return std::make_unique<OptCfg<float, int>>(n); }
     return nullptr;
